@@ -76,7 +76,9 @@ def run_single(rng, res, idx):
     from kfac.base_preconditioner import BaseKFACPreconditioner
 
     klkind = rng.choice(['const', 'const', 'mild', 'big', 'callable', 'none', 'none'])
-    cfg = kh.make_config(rng, callables=False, intervals='divides', dtypes=('float64', 'float32'), inv_dtypes=('float32', 'float64'), kl=('const',))
+    # a third of the cases train with a loss scale (documented flow: gradients are unscaled before step(); the clip must not see the scale)
+    cfg = kh.make_config(rng, callables=False, intervals='divides', dtypes=('float64', 'float32'), inv_dtypes=('float32', 'float64'), kl=('const',),
+                         scaler=rng.random() < 0.35)
     cfg['kl'] = {'const': ('const', rng.choice([1e-3, 1e-4, 1e-2])), 'mild': ('const', rng.choice([0.1, 1.0, 10.0])), 'big': ('const', 1e9),
                  'callable': ('lin', 1e-3, 2.0), 'none': ('none',)}[klkind]
     cfg['lr'] = rng.choice([('const', 0.1), ('const', 1.0), ('const', 0.01), ('inv', 0.5), ('const', 0.0), ('cyc', 0.2, 0.2, 2)])   # lr >= 0 is allowed: 0 gives a zero product, nu = 1
